@@ -62,3 +62,29 @@ Definition simple_call (c : call) : bool :=
 (* the root object is added to the connection before the first call: it has an
    oid and is registered; the store is empty *)
 Definition pw_init : pworld := mkPW init (mkP [0%nat] [0%nat] []) [].
+
+(* ---------- abort ---------- *)
+(* transaction.abort() invalidates every REGISTERED object: it becomes a ghost
+   and loads its record when it is next used; an object that did not register
+   keeps its in-memory state; objects created in the transaction are dropped
+   with the references to them.  What the writer then sees by descent from the
+   root object: the in-memory state of a stored, unregistered node of its tree,
+   the stored record of everything else (children are resolved the same way) *)
+Fixpoint abort_items (fuel : nat) (t : tree Z) (p : pstate) (s : store Z) (i : nat) : list (Z * Z) :=
+  match fuel with
+  | O => []
+  | S f =>
+    let r := match find_node Z t i with
+             | Some n => if mem i (p_stored p) && negb (mem i (p_changed p))
+                         then Some (getstate Z (p_stored p) t n)
+                         else sget Z s i
+             | None => sget Z s i
+             end in
+    match r with
+    | Some (RLeaf items _) | Some (REmbedded items _) => items
+    | Some (RNode kids _) => flat_map (fun sc => abort_items f t p s (snd sc)) kids
+    | _ => []
+    end
+  end.
+Definition abort_view (fuel : nat) (w : pworld) : list (Z * Z) :=
+  abort_items fuel (t_tree (pw_st w)) (pw_p w) (pw_s w) (tid Z (t_tree (pw_st w))).
